@@ -96,6 +96,12 @@ pub fn simulate_with(plan: &Plan, opts: &SimOpts) -> Outcome {
         Ok(Err(ShimErr::Token(t))) => RunEnd::Token(t),
         Err(_) => {
             let (loc, msg) = panichook::take_last_pair().unwrap_or_default();
+            if !loc.starts_with('/') || msg.starts_with("harness:") {
+                // a panic raised by the harness itself is never a finding
+                eprintln!("HARNESS-ERROR: harness code panicked at {}: {}", loc, msg);
+                eprintln!("plan: {}", serde_json::to_string(plan).unwrap_or_default());
+                std::process::exit(2);
+            }
             RunEnd::Panic { loc, msg }
         }
     };
